@@ -468,7 +468,7 @@ func TestC02_MultiFault(t *testing.T) {
 			return nil
 		})
 		nfaults := 0
-		nact := rapid.IntRange(4, scale(16, 40)).Draw(rt, "nactions")
+		nact := drawActions(rt, 4, 16, 40)
 		for i := 0; i < nact; i++ {
 			switch a := rapid.IntRange(0, 9).Draw(rt, "action"); {
 			case a <= 1:
